@@ -161,7 +161,7 @@ def sweep_cases(pid, tier, rng):
             if algo == "XY":
                 continue
             shapes = [("torus", 3, 1), ("torus", 4, 2), ("hub", 6, 0), ("hub", 4, 0), ("bypass", 3, 0), ("handtree", 0, 0),
-                      ("ring-eject", 4, 0), ("hub-bypass", 3, 6), ("chain-xbar", 5, 8), ("name-prefix", 0, 0)]
+                      ("ring-eject", 4, 0), ("hub-bypass", 3, 6), ("chain-xbar", 5, 8), ("name-prefix", 0, 0), ("fan-dirs", 0, 0)]
             if big:
                 shapes += [("torus", 5, 1), ("torus", 3, 3), ("hub", 7, 0), ("bypass", 2, 0)]
             for kind, a, b in shapes:
@@ -174,6 +174,8 @@ def sweep_cases(pid, tier, rng):
                     cfg = gen_desc.gen_tree_manual(rng, algo, nt)
                 elif kind == "name-prefix":
                     cfg = gen_desc.gen_name_prefix_routers(rng, algo, nt)
+                elif kind == "fan-dirs":
+                    cfg = gen_desc.gen_tree_fan_dirs(rng, algo, nt)
                 elif kind == "ring-eject":
                     cfg = gen_desc.gen_ring_eject(rng, algo, nt, a)
                 elif kind == "hub-bypass":
